@@ -21,6 +21,8 @@ func checkC07(c *Ctx, r *Report, tier string) {
 	r.Rule("C07.R1", "links are symmetric: in the insert path every addEdge(l, B, d) on A is paired in the same block with addEdge(l, A, d) on B", 1)
 	r.Rule("C07.R2", "pruning only above the budget: each pruneNeighbors call on the insert path is guarded by edgesCount(l) > budget, budget = mMax0 on the l == 0 polarity and mMax otherwise; defaults are mMax = m, mMax0 = 2m", 3)
 	r.Rule("C07.R3", "the level-0 beam is max(ef, k): the ef argument of the level-0 searchLevel call in Search is MaxInt(config.ef, int(k))", 1)
+	r.Rule("C07.R4", "no ghost vertices: a rejected insert (existing id) has not linked anything into the graph — otherwise a second vertex with the same id competes in every beam and pushes out a true neighbour", 3)
+	noMutationBeforeErrorReturn(c, r, "C07.R4")
 	if len(x.missing) > 0 {
 		r.Unk("C07.R1", "index", "anchors", "-", "cannot resolve: "+strings.Join(x.missing, ", "))
 		return
@@ -560,6 +562,8 @@ func checkC10(c *Ctx, r *Report, tier string) {
 		}
 		r.Check(bad == "", "C10.R4", "protobuf.Dataset", "stores-PartitionCount", c.Pos(pc.Pos()), "no production code outside generated files stores the partition count "+bad)
 	}
+	r.Rule("C10.R5", "the ordered partition list (index = routing result) is never built from map iteration", 1)
+	partitionOrderStable(c, r, "C10.R5")
 	// len(partitions) from the count
 	if nd := c.Func("storage", "newDataset"); nd != nil {
 		ok := false
